@@ -12,6 +12,7 @@ import CxxModel.Theorems.ArrayDecl
 import CxxModel.Theorems.AliasPre
 import CxxModel.Theorems.BitsDecl
 import CxxModel.Theorems.InitPre
+import CxxModel.Theorems.VarDeclsPre
 import CxxModel.Theorems.MemberKinds
 namespace Cxx
 open P
@@ -418,6 +419,34 @@ def Item.variableInitPre (G : Nat) (v : DeclToks) (eq : Tok) (vals : List Tok) :
         toplevel_variable_init_pre env hp G (D + 1 + 1) w v.spec f r v.segs v.cst v.vol (tvs v.ops) v.ops v.x eq vals v.semi v.d1 b1 b0 bmid bx bq bv b' blk rest hst hk hmu
           (by rw [hnf]; simp) hspec hfr hfirst h1 h5 hhead h8 hpre hfn rfl h10 hx hxv h11 he hyv htl hy.single_inv hs hFv
       exact ⟨w7, _, ev, hi7, hsig, hst7, hev7, ⟨dox, hk7, hid7, hpar7⟩, hmu7⟩)
+
+/-- `S d1 , … , dn ;` at namespace scope: any type specifier, every declarator `prefixᵢ xᵢ` with its own prefix -/
+def Item.variablesPre (spec : List Tok) (segs : List PQSeg) (cst vol : Bool) (ds : List (Dtor × DType)) (last : Dtor × DType) :
+    Item env F (core F (D + 1 + 1 + 1 + 1)) where
+  At := fun b b' =>
+    (TypeSpecR env F (D + 1 + 1) spec segs cst vol ∧ (∃ f r, spec = f :: r ∧ specFirst f.type = true) ∧
+      (∀ o ∈ (firstDtor ds last).ops.head?, declStart o.type = true ∧ o.value ≠ "auto") ∧
+      (∀ p ∈ ds, p.1.OKp env F (D + 1 + 1 + 1) (.type (.mk segs none false) cst vol) p.2 ∧ p.1.sep.type = ",") ∧
+      last.1.OKp env F (D + 1 + 1 + 1) (.type (.mk segs none false) cst vol) last.2 ∧
+      last.1.sep.type = ";" ∧ 2 ≤ F ∧ ds.length + 1 ≤ F) ∧
+    Yields env.cfg b (spec ++ (ds.flatMap (fun p => p.1.toks) ++ last.1.toks)) b'
+  Ev := fun blk rest evs => ∃ doxs : List (Option String), doxs.length = ds.length + 1 ∧
+    evs.map (·.kind) = varKinds (ds ++ [last]) doxs ∧ (∀ e ∈ evs, e.stateId = blk.id ∧ e.parentId = rest.head?.map (·.id))
+  size := 1
+  at_sigEq := by
+    intro b b' k ⟨hok, hy⟩ hs
+    obtain ⟨k', hy', hs'⟩ := hy.sigEq hs
+    exact ⟨k', ⟨hok, hy'⟩, hs'⟩
+  sound := by
+    intro w b' blk rest hst hk hmu ⟨⟨hspec, ⟨f, r, hfr, hfirst⟩, hhead, hds, hlast, hsep, h10, h11⟩, hy⟩
+    rw [hfr] at hy
+    obtain ⟨b1, t0, hy⟩ := Yields.cons_inv hy
+    obtain ⟨b0, hy0, hy⟩ := hy.split
+    obtain ⟨d, bD, wF, evs, doxs, blkF, _, hi, hsig, hstF, _, _, hev, hdl, hkinds, hall, _, _, _, hmuF, _, l, hl⟩ :=
+      toplevel_variables_pre env hp hnf F (D + 1 + 1) w spec f r segs cst vol ds last b1 b0 b' blk rest hst hk hmu hspec hfr hfirst t0 hy0
+        hhead hds hlast hsep hy h10 h11
+    exact ⟨wF, evs, ⟨⟨[wF], .one hi, rfl⟩, hsig, ⟨blkF, hstF, by rw [hl]; exact Block.sameButLoc_setLoc blk l⟩, hev, hmuF⟩,
+      doxs, hdl, hkinds, hall⟩
 
 end kinds
 
